@@ -96,7 +96,7 @@ impl Property for C06 {
     }
 
     fn cases(tier: Tier) -> u64 {
-        tier.pick(12_000, 600_000)
+        tier.pick(36_000, 600_000)
     }
 
     fn exhaustive_spaces(_tier: Tier) -> Vec<String> {
